@@ -111,7 +111,8 @@ def get_data_expired():
                 nib.Nifti1Image(np.zeros((1, 1, 1), np.float32), np.eye(4)).get_data()
                 EXPIRED[0] = 0
             except Exception as e:
-                if type(e).__name__ != 'ExpiredDeprecationError':
+                from nibabel.deprecator import ExpiredDeprecationError
+                if not isinstance(e, ExpiredDeprecationError):
                     raise
                 EXPIRED[0] = 1
     return EXPIRED[0]
@@ -176,21 +177,21 @@ def vals_str(r):
     return ','.join(ival(v) for v in np.asarray(r).ravel(order='F'))
 
 
-def refusal(e):
-    m = str(e)
-    if isinstance(e, ValueError) and 'floating point type' in m:
-        return 'R:not_float'
-    if isinstance(e, ValueError) and 'read-only' in m:
-        return 'R:read_only'
-    if isinstance(e, IndexError) or (isinstance(e, ValueError) and 'Integer index' in m):
-        return 'R:index'      # numpy: IndexError; fileslice.canonical_slicers: ValueError('Integer index 1 too large')
-    if (isinstance(e, OSError) and 'Expected' in m) or (isinstance(e, ValueError) and 'not enough data' in m) \
-            or isinstance(e, EOFError):
-        return 'R:short_file'
-    if type(e).__name__ == 'ExpiredDeprecationError':
+def refusal(e, k, c, last):
+    """Refusal class of an exception, from its TYPE, the operation and observable state only - never from its text."""
+    from nibabel.deprecator import ExpiredDeprecationError
+    if isinstance(e, ExpiredDeprecationError):
         return 'R:expired'
     if isinstance(e, FileNotFoundError):
         return 'R:unreadable'
+    if k in ('fi', 'ui') and isinstance(e, ValueError):
+        return 'R:not_float'          # an integer dtype was asked of get_fdata
+    if k == 'ed' and isinstance(e, ValueError) and last is not None and not last.flags.writeable:
+        return 'R:read_only'
+    if k == 'sl' and isinstance(e, (IndexError, ValueError)) and (len(c['shape']) == 0 or c['shape'][-1] < 2):
+        return 'R:index'              # [..., 1] on a last axis of length < 2 (numpy: IndexError; fileslice: ValueError)
+    if isinstance(e, (OSError, ValueError, EOFError)) and c['kind'] == 'P' and c.get('short'):
+        return 'R:short_file'         # the file is shorter than its header says: every read is refused
     return 'R:other:' + type(e).__name__
 
 
@@ -329,7 +330,7 @@ def impl_trace(c, ops, workdir):
         except Exception as e:  # a refusal: nothing was returned
             if isinstance(e, RuntimeError):
                 raise
-            toks.append(refusal(e))
+            toks.append(refusal(e, k, c, last))
             continue
         if r is None:
             continue
